@@ -224,24 +224,25 @@ def diff(a, b, *, roots=("cirq",), ignore=(), normalize=None, rtol=0.0, type_mis
             if len(x) != len(y):
                 report()
                 return
-            # pair the keys up by their own lookup first, by repr as the fall-back
-            yk = {}
-            for k in y:
-                yk.setdefault(_short(k), k)
-            for k, v in x.items():
-                k2 = None
+            # pair the keys up by their own lookup; when a key of x is not found in y (the key objects themselves differ),
+            # by position (both dicts were built in the same order), so that the difference is attributed to the key object
+            found = True
+            for k in x:
                 try:
-                    if k in y:
-                        k2 = k
+                    if k not in y:
+                        found = False
+                        break
                 except Exception:
-                    k2 = None
-                if k2 is None:
-                    k2 = yk.get(_short(k))
-                    if k2 is None:
-                        out.append(Diff(owner, field, path + "[%s]" % _short(k), "<key present>", "<key missing>"))
-                        continue
-                elif len(y) <= 24:
-                    # the key objects themselves may carry lost fields
+                    found = False
+                    break
+            if not found:
+                for i, ((k1, v1), (k2, v2)) in enumerate(zip(x.items(), y.items())):
+                    rec(k1, k2, owner, field, path + "<key %d>" % i, depth + 1)
+                    rec(v1, v2, owner, field, path + "[%s]" % _short(k1)[:40], depth + 1)
+                return
+            for k, v in x.items():
+                if len(y) <= 24:
+                    # equal keys may still carry lost fields
                     for kk in y:
                         try:
                             if kk == k:
@@ -249,7 +250,7 @@ def diff(a, b, *, roots=("cirq",), ignore=(), normalize=None, rtol=0.0, type_mis
                                 break
                         except Exception:
                             break
-                rec(v, y[k2], owner, field, path + "[%s]" % _short(k)[:40], depth + 1)
+                rec(v, y[k], owner, field, path + "[%s]" % _short(k)[:40], depth + 1)
             return
         if isinstance(x, (types.FunctionType, types.BuiltinFunctionType, types.MethodType, type)) or \
                 isinstance(y, (types.FunctionType, types.BuiltinFunctionType, types.MethodType, type)):
